@@ -78,15 +78,20 @@ def atoi (s : Bytes) : Int :=
   toInt32 l
 
 /-- `_extract_rc(buf)` on the zero-filled `Malloc(n+1)` buffer holding the `n` bytes `buf`:
-    (return value, the C string left in the buffer).  When text precedes the marker on a
-    newline-terminated line the number is parsed from ONE PAST its first character
-    (`*p++ = '\n'` before `p += strlen(RC_MAGIC)`): defect D9, property C08. -/
-def extractRc (buf : Bytes) : Int × Bytes :=
+    (return value, the C string left in the buffer).
+    ONE SWITCH for defect D9 (property C08), `skipDigit`:
+      `true`  = dsh.c before ee5f5b4: when text precedes the marker on a newline-terminated line
+                the number is parsed from ONE PAST its first character (`*p++ = '\n'` before
+                `p += strlen(RC_MAGIC); ret = atoi(p)`);
+      `false` = repaired: `ret = atoi(p + strlen(RC_MAGIC))` before the line is cut.
+    The driver takes the value from `Gen.RELAY_XRC_SKIPS_DIGIT` (read off the code every run). -/
+def extractRc (skipDigit : Bool) (buf : Bytes) : Int × Bytes :=
   let c := cstr buf
   match findSub magic c with
   | none => (0, c)
   | some i =>
-    if c.getLast? = some 10 ∧ i ≠ 0 then (atoi (c.drop (i + 1 + magic.length)), c.take i ++ [10])
+    if c.getLast? = some 10 ∧ i ≠ 0 then
+      (atoi (c.drop (i + (if skipDigit then 1 else 0) + magic.length)), c.take i ++ [10])
     else (atoi (c.drop (i + magic.length)), c.take i)
 
 /-! ### emissions: one element = one stdio call (`fputs` at the end of `_verr`) -/
@@ -106,10 +111,19 @@ structure Cfg where
       `out("%S: %s", host, buf)` for the first piece (the proposed repair).  The driver takes the
       value from `Gen.RELAY_TAIL_CALLS`, which is read off the code under test on every run. -/
   tailSplit : Bool
+  /-- switch for defect D9 (C08): see `extractRc` -/
+  rcSkipDigit : Bool
+  /-- ONE SWITCH for the "late line" defect (C08): `true` = dsh.c before 594f0d3, `_flush_lines`
+      assigns `th->rc = _extract_rc (buf)` for EVERY stdout line (a line after the marker line
+      resets the status to 0); `false` = repaired: only `if (read_rc && strstr (buf, RC_MAGIC))`.
+      The driver takes the value from `Gen.RELAY_RC_EVERY_LINE`. -/
+  rcEveryLine : Bool
   deriving DecidableEq, Repr, Inhabited
 
-/-- the value of the D6 switch for the code under test -/
+/-- the values of the switches for the code under test -/
 def tailSplitOfCode : Bool := Gen.RELAY_TAIL_CALLS == 2
+def rcSkipDigitOfCode : Bool := Gen.RELAY_XRC_SKIPS_DIGIT == 1
+def rcEveryLineOfCode : Bool := Gen.RELAY_RC_EVERY_LINE == 1
 
 /-! ### the cbuf entry points dsh.c uses -/
 
@@ -127,7 +141,9 @@ structure BufOps (β : Type) where
 /-- one line taken out of the buffer by `_flush_lines`: (new th->rc, stdio calls) -/
 def emitLine (cfg : Cfg) (host : Bytes) (strm : Nat) (readRc : Bool) (rc : Int) (buf : Bytes) :
     Int × List Em :=
-  let (rc', c) := if readRc then extractRc buf else (rc, cstr buf)
+  let (rc', c) :=
+    if readRc ∧ (cfg.rcEveryLine ∨ (findSub magic (cstr buf)).isSome) then extractRc cfg.rcSkipDigit buf
+    else (rc, cstr buf)
   (rc', if c.isEmpty then [] else [⟨strm, labelPrefix cfg.labels cfg.keep host ++ c⟩])
 
 /-- `_flush_lines (cb, outf, read_rc, th)`; `fuel` bounds the `while` -/
